@@ -164,6 +164,9 @@ def cases(tier, seed):
                                         'samp_md': smd, 'export': export, 'header_value': hv,
                                         'layout': lays[len(out) % len(lays)],
                                         'writers': WRITERS, 'readers': READERS})
+    for shape, zv in D.CANCEL:
+        out.append({'prod': 'Z', 'shape': list(shape), 'zvals': list(zv), 'obs_md': 'none', 'export': False,
+                    'writers': WRITERS, 'readers': READERS})
     vals = D.HARD + EXTRA
     for k, v in enumerate(vals):
         for sign in (1, -1):
@@ -193,6 +196,9 @@ def build(case):
     """-> (Table | None, oids, sids)"""
     from biom import Table
     shape = tuple(case['shape'])
+    if case['prod'] == 'Z':
+        M = np.array(case['zvals'], float).reshape(shape)
+        return Table(M, ids_for('plain', 'observation', shape[0]), ids_for('plain', 'sample', shape[1]))
     if case['prod'] == 'V':
         vals = D.HARD + EXTRA
         M = np.zeros(shape)
